@@ -2337,6 +2337,9 @@ DLLIMPORT int cfg_addlist(cfg_t *cfg, const char *name, unsigned int nvalues, ..
 		return CFG_FAIL;
 	}
 
+	/* appending to the default values is fine, just as for '+=' in a file */
+	opt->flags &= ~CFGF_RESET;
+
 	va_start(ap, nvalues);
 	cfg_addlist_internal(opt, nvalues, ap);
 	va_end(ap);
